@@ -47,11 +47,57 @@ def scenarios(tier, seed):
     return out
 
 
+# time-outs a DM14 / transport implementation typically arms (J1939-21 Tr, Th, T1, T2/T3, the DM14 1.25 s rule, round values)
+STALE_GRID = [200000, 500000, 750000, 1000000, 1250000, 2000000]
+
+
+def history_scenarios(tier, seed):
+    """a transaction that was served and closed regularly EARLIER must not weaken the protection of a later one: two
+    transactions of the same requester, the second placed so that its closing window (operation-completed DM15 sent,
+    closing DM14 not yet received) lies X after the completion of the first, for every X of STALE_GRID - whatever the
+    first one left behind (a timer, a flag, a remembered requester) is due exactly then; the intruder comes after every
+    frame of the second transaction."""
+    out = []
+    shapes = SHAPES if tier != "quick" else [SHAPES[(seed + i) % len(SHAPES)] for i in (0, 5)]
+    for sh in shapes:
+        b = gen_dm14.intruded(seed + 1, sh)
+        two = dict(b, ops=[dict(b["ops"][0]), dict(b["ops"][0])], addrs=list(ADDRSETS[0]), expect_idle=True,
+                   server={"proceed": [True, True], "respond": [dict(b["server"]["respond"][0]), dict(b["server"]["respond"][0])]})
+        for x in STALE_GRID:
+            two["ops"][0]["gap"] = x
+            tr0, sim0 = scen_dm14.run(two)
+            done = [e["t"] for e in tr0["ev"] if e["ev"] == "send" and e["node"] == "S" and e["pgn"] == 0xD800 and e["data"][0] == 0
+                    and ((e["data"][1] >> 1) & 7) == 4]
+            if len(done) != 2:
+                continue
+            nfr = sim0.nframes
+            for off in (400, -400) if tier != "quick" else (400,):
+                gap = x - (done[1] - done[0] - x + off)
+                if gap < 1000:
+                    continue
+                sc = common.json.loads(common.json.dumps(two))
+                sc["ops"][0]["gap"] = gap
+                for k in range(nfr // 2, nfr):
+                    out.append(dict(sc, intruder=[{"after_frame": k, "sa": ADDRSETS[0][2], "ptr": 0x92000004, "cmd": 1}]))
+    return out
+
+
 def in_scope(tr):
     """the property speaks about intrusions while a transaction is in progress: from the first DM14 until the serving side
     has received the closing one.  Injection points that fall behind that are ordinary new transactions - dropped."""
     closed = None
     cl = tr["meta"]["scenario"].get("addrs", ADDRSETS[0])[0]
+    if len(tr["meta"]["scenario"]["ops"]) > 1:
+        # several transactions of the client one after the other (history_scenarios; intruders from other addresses only):
+        # in scope = every foreign DM14 reaches the serving side while one of them is open there
+        is_open = False
+        for e in tr["ev"]:
+            if e["ev"] == "pdu" and e["node"] == "S" and e["pgn"] == 0xD900 and len(e["data"]) == 8:
+                if e["sa"] == cl:
+                    is_open = ((e["data"][1] >> 1) & 7) != 4
+                elif not is_open:
+                    return False
+        return True
     for e in tr["ev"]:
         if e["ev"] == "pdu" and e["node"] == "S" and e["pgn"] == 0xD900 and e["sa"] == cl and len(e["data"]) == 8 and ((e["data"][1] >> 1) & 7) == 4:
             closed = e["t"]
@@ -70,6 +116,8 @@ def run(chk, replay):
     chk.rule = ("8 transaction shapes x intruding DM14 after every bus frame k x {other source address, client's own address "
                 "with another pointer} + double intrusions (same pointer from another requester, then a third requester); "
                 "source addresses of client / server / intruder: typical ones and the boundary values 0x00 and 0xFD; "
+                "+ two-transaction histories: the second transaction's closing window placed 0.2 / 0.5 / 0.75 / 1 / 1.25 / 2 s "
+                "after the completion of the first, intruder after every frame of the second; "
                 "non-trivial = an intruding request was actually injected")
     chk.assumptions = ["the intruder is a third real stack sending a well-formed DM14 read/write request 1 us after the k-th bus frame",
                        "for an intruder using the client's own address only not-served / busy-answer are required (the busy reply "
@@ -81,7 +129,10 @@ def run(chk, replay):
     chk.model("MC_Dm14.tla", "MC_Dm14.cfg")
     chk.model("MC_Dm14.tla", "MC_Dm14_nosec.cfg")
     scs = scenarios(chk.tier, chk.seed)
+    nbase = len(scs)
+    scs += history_scenarios(chk.tier, chk.seed)
     traces = [t for t in (scen_dm14.run(sc)[0] for sc in scs) if in_scope(t)]
+    chk.extra["history_scenarios"] = sum(1 for t in traces if len(t["meta"]["scenario"]["ops"]) > 1)
     chk.validate("Dm14Trace.tla", "Dm14Trace.cfg", traces, "main", nontrivial=nontrivial)
     chk.exhaustive = True
     chk.extra["injection_points"] = len(traces)
